@@ -2,47 +2,77 @@ use crate::macros::dispatch;
 
 pub use methods::dispatch as pow;
 
-fn exponent(n: f64) -> crate::CelResult<u32> {
-    if n >= 0.0 && n <= u32::MAX as f64 {
-        Ok(n as u32)
-    } else {
-        Err(crate::CelError::value(
-            "pow: exponent out of range for an integer base",
-        ))
-    }
-}
-
 fn overflow() -> crate::CelError {
     crate::CelError::value("pow: integer overflow")
 }
 
+/// base^exp for an integer base and a non-negative exponent of any size
+fn int_pow(base: i128, exp: f64) -> crate::CelResult<i128> {
+    if !(exp >= 0.0) {
+        return Err(crate::CelError::value(
+            "pow: negative exponent for an integer base",
+        ));
+    }
+    if exp <= u32::MAX as f64 {
+        return base.checked_pow(exp as u32).ok_or_else(overflow);
+    }
+    // beyond u32 only 0, 1 and -1 stay representable (every such double exponent is even)
+    match base {
+        0 => Ok(0),
+        1 | -1 => Ok(1),
+        _ => Err(overflow()),
+    }
+}
+
+fn signed(base: i64, exp: f64) -> crate::CelResult<i64> {
+    i64::try_from(int_pow(base as i128, exp)?).map_err(|_| overflow())
+}
+
+fn unsigned(base: u64, exp: f64) -> crate::CelResult<u64> {
+    u64::try_from(int_pow(base as i128, exp)?).map_err(|_| overflow())
+}
+
 #[dispatch]
 mod methods {
-    use super::{exponent, overflow};
+    use super::{signed, unsigned};
     use crate::{CelResult, CelValue};
 
     fn pow(n1: i64, n2: i64) -> CelResult<i64> {
-        n1.checked_pow(exponent(n2 as f64)?).ok_or_else(overflow)
+        if n2 < 0 {
+            return signed(n1, -1.0);
+        }
+        // an odd exponent beyond u32 keeps the sign of -1
+        if n1 == -1 && n2 % 2 == 1 {
+            return Ok(-1);
+        }
+        signed(n1, n2 as f64)
     }
 
     fn pow(n1: i64, n2: u64) -> CelResult<i64> {
-        n1.checked_pow(exponent(n2 as f64)?).ok_or_else(overflow)
+        // an odd exponent beyond u32 keeps the sign of -1
+        if n1 == -1 && n2 % 2 == 1 {
+            return Ok(-1);
+        }
+        signed(n1, n2 as f64)
     }
 
     fn pow(n1: i64, n2: f64) -> CelResult<i64> {
-        n1.checked_pow(exponent(n2)?).ok_or_else(overflow)
+        signed(n1, n2)
     }
 
     fn pow(n1: u64, n2: i64) -> CelResult<u64> {
-        n1.checked_pow(exponent(n2 as f64)?).ok_or_else(overflow)
+        if n2 < 0 {
+            return unsigned(n1, -1.0);
+        }
+        unsigned(n1, n2 as f64)
     }
 
     fn pow(n1: u64, n2: u64) -> CelResult<u64> {
-        n1.checked_pow(exponent(n2 as f64)?).ok_or_else(overflow)
+        unsigned(n1, n2 as f64)
     }
 
     fn pow(n1: u64, n2: f64) -> CelResult<u64> {
-        n1.checked_pow(exponent(n2)?).ok_or_else(overflow)
+        unsigned(n1, n2)
     }
 
     fn pow(n1: f64, n2: i64) -> f64 {
